@@ -1,9 +1,344 @@
-/- C14 - model (stub: not built yet) -/
+/-
+C14 - "A CRL cache entry is only ever absent or complete".
+
+Part A (proof-oriented): an abstract POSIX directory (`name -> inode`, `inode -> bytes`), any
+number of writers running the protocol of `file.WriteFile`
+  os.CreateTemp(root, "notation-*") ; Write ; Close ; os.Rename(temp, root/hex(sha256(url)))
+(`Facts.writeFileSteps`), any number of readers doing what `FileCache.Get` does (one
+`os.ReadFile` = open the key name once, read the pinned inode to EOF), crashes (SIGKILL) of
+writers anywhere. `step` is total: an ill-timed event is a no-op, so *every* event list is a
+schedule and theorems over `List Event` quantify over all interleavings and crash points.
+Ghost state (`cur`, `now`, `stamp`, `openAt`, reader snapshots) only serves the statements.
+
+Part B (executable, used by the driver): the harness sends the *trace* it actually executed at
+hook granularity (`Ev`), with `get` / `probe` marking where it observed the cache; `run`
+replays the trace through `step` and predicts every observation; `clauses` is the property
+over the implementation's observations.
+Core Lean only.
+-/
 import NotationModel.Basic
 open Lean
 
 namespace NotationModel.C14
 
-def judge (_ : Json) : Except String Json := .error "C14: model not built yet"
+/-! ## Part A: the state machine -/
+
+abbrev Bytes := List Nat
+
+/-- names in the cache directory: `key k` = hex(sha256(url_k)), `tmp t` = "notation-<t>".
+That the two families are disjoint is `temp_never_key` (Props). -/
+inductive FName | key (k : Nat) | tmp (t : Nat)
+  deriving DecidableEq
+
+inductive WState
+  | idle
+  | opened (t i off : Nat)     -- temp name, inode, bytes written so far
+  | closed (t i : Nat)
+  | done                       -- renamed over the key
+  | dead                       -- killed before the rename
+  deriving DecidableEq
+
+inductive RState
+  | idle
+  | reading (i : Nat) (buf : Bytes) (snap : Option Nat)  -- snap (ghost) = writer current at open
+  | finished (res : Option Bytes) (snap : Option Nat)    -- `none` = cache miss (ENOENT at open)
+  deriving DecidableEq
+
+/-- static program: what each writer stores where, which key each reader reads -/
+structure Prog where
+  wkey : Nat → Nat
+  wdata : Nat → Bytes
+  rkey : Nat → Nat
+
+structure Sys where
+  dir : FName → Option Nat
+  ino : Nat → Bytes
+  next : Nat                  -- inode allocation counter
+  wst : Nat → WState
+  rst : Nat → RState
+  cur : Nat → Option Nat      -- ghost: per key, the writer whose rename is current
+  now : Nat                   -- ghost: logical clock, ticks at every rename
+  stamp : Nat → Nat           -- ghost: clock value at which a writer renamed
+  openAt : Nat → Nat          -- ghost: clock value at which a reader opened
+
+def init : Sys :=
+  { dir := fun _ => none, ino := fun _ => [], next := 0,
+    wst := fun _ => .idle, rst := fun _ => .idle, cur := fun _ => none,
+    now := 0, stamp := fun _ => 0, openAt := fun _ => 0 }
+
+inductive Event
+  | create (w t : Nat)
+  | write (w n : Nat)         -- write the next `n` bytes (clipped to what is left)
+  | close (w : Nat)
+  | rename (w : Nat)
+  | crash (w : Nat)
+  | ropen (r : Nat)
+  | rread (r n : Nat)         -- read up to `n+1` more bytes of the open file; nothing left = EOF
+
+def upd {α β} [DecidableEq α] (f : α → β) (a : α) (b : β) : α → β := fun x => if x = a then b else f x
+
+@[simp] theorem upd_same {α β} [DecidableEq α] (f : α → β) (a : α) (b : β) : upd f a b a = b := by simp [upd]
+@[simp] theorem upd_other {α β} [DecidableEq α] (f : α → β) (a x : α) (b : β) (h : x ≠ a) : upd f a b x = f x := by simp [upd, h]
+
+def step (p : Prog) (s : Sys) : Event → Sys
+  | .create w t =>
+    match s.wst w, s.dir (.tmp t) with
+    | .idle, none =>                       -- O_EXCL: an existing temp name is never reused
+      { s with dir := upd s.dir (.tmp t) (some s.next), ino := upd s.ino s.next [],
+               next := s.next + 1, wst := upd s.wst w (.opened t s.next 0) }
+    | _, _ => s
+  | .write w n =>
+    match s.wst w with
+    | .opened t i off =>
+      let off' := min (off + n) (p.wdata w).length
+      { s with ino := upd s.ino i ((p.wdata w).take off'), wst := upd s.wst w (.opened t i off') }
+    | _ => s
+  | .close w =>
+    match s.wst w with
+    | .opened t i off => if off = (p.wdata w).length then { s with wst := upd s.wst w (.closed t i) } else s
+    | _ => s
+  | .rename w =>
+    match s.wst w with
+    | .closed t i =>
+      { s with dir := upd (upd s.dir (.tmp t) none) (.key (p.wkey w)) (some i),
+               wst := upd s.wst w .done, cur := upd s.cur (p.wkey w) (some w),
+               now := s.now + 1, stamp := upd s.stamp w s.now }
+    | _ => s
+  | .crash w =>
+    match s.wst w with
+    | .done => s
+    | _ => { s with wst := upd s.wst w .dead }
+  | .ropen r =>
+    match s.rst r with
+    | .idle =>
+      match s.dir (.key (p.rkey r)) with
+      | none => { s with rst := upd s.rst r (.finished none (s.cur (p.rkey r))), openAt := upd s.openAt r s.now }
+      | some i => { s with rst := upd s.rst r (.reading i [] (s.cur (p.rkey r))), openAt := upd s.openAt r s.now }
+    | _ => s
+  | .rread r n =>
+    match s.rst r with
+    | .reading i buf snap =>
+      let chunk := ((s.ino i).drop buf.length).take (n + 1)    -- a read of 1..n+1 bytes
+      if chunk = [] then { s with rst := upd s.rst r (.finished (some buf) snap) }   -- EOF
+      else { s with rst := upd s.rst r (.reading i (buf ++ chunk) snap) }
+    | _ => s
+
+def runFrom (p : Prog) (s : Sys) (evs : List Event) : Sys := evs.foldl (step p) s
+
+/-- the state after a schedule -/
+def exec (p : Prog) (evs : List Event) : Sys := runFrom p init evs
+
+/-- inode `i` is being worked on by writer `w` (not yet renamed) -/
+def Owns (s : Sys) (w i : Nat) : Prop :=
+  (∃ t off, s.wst w = .opened t i off) ∨ (∃ t, s.wst w = .closed t i)
+
+/-! ## concrete file names -/
+
+def hexDigits : List Char := ['0', '1', '2', '3', '4', '5', '6', '7', '8', '9', 'a', 'b', 'c', 'd', 'e', 'f']
+
+def hexDigit (n : Nat) : Char := hexDigits.getD n '0'
+
+/-- `hex.EncodeToString` of one byte -/
+def hexByte (b : Nat) : List Char := [hexDigit (b / 16 % 16), hexDigit (b % 16)]
+
+/-- `hex.EncodeToString(digest)`: the key file name of a URL with SHA-256 digest `d` -/
+def hexName (d : List Nat) : List Char := d.flatMap hexByte
+
+/-- fixed part of the names `os.CreateTemp(dir, "notation-*")` produces -/
+def tempPrefix : List Char := ['n', 'o', 't', 'a', 't', 'i', 'o', 'n', '-']
+
+/-! ## Part B: executable trace replay -/
+
+structure WSpec where
+  key : Nat                   -- index of the URL this Set call writes
+  len : Nat                   -- abstract length of the bundle (beyond its identifying head)
+  deriving Repr, FromJson, ToJson
+
+inductive Kind | create | write | close | rename | crash | get | probe
+  deriving DecidableEq, Repr, FromJson, ToJson
+
+/-- one step of the executed trace. `a` = writer (or key for `get`), `b` = byte count for `write`. -/
+structure Ev where
+  kind : Kind
+  a : Nat
+  b : Nat
+  deriving Repr, FromJson, ToJson
+
+inductive RKind | miss | complete | corrupt
+  deriving DecidableEq, Repr, FromJson, ToJson
+
+/-- result of one `FileCache.Get`: miss / the complete bundle of Set call `writer` / anything else -/
+structure ReadObs where
+  kind : RKind
+  writer : Nat                -- meaningful for `complete` only (0 otherwise)
+  deriving DecidableEq, Repr, FromJson, ToJson
+
+/-- the cache directory as seen from outside -/
+structure DirObs where
+  present : List Bool         -- per key index: a file with that key's name exists
+  keys : List ReadObs         -- per key index: what `Get` returns
+  temps : Nat                 -- files named notation-*
+  others : Nat                -- files that are neither
+  deriving DecidableEq, Repr, FromJson, ToJson
+
+structure SeenObs where
+  key : Nat
+  kind : RKind
+  writer : Nat
+  afterSet : Bool             -- the Get started after some Set for this key had returned
+  deriving DecidableEq, Repr, FromJson, ToJson
+
+structure Input where
+  free : Bool                 -- free-running (unscheduled) experiment: only `seen` is meaningful
+  writers : List WSpec
+  nkeys : Nat
+  events : List Ev
+  deriving Repr, FromJson, ToJson
+
+structure Obs where
+  gets : List ReadObs         -- one per `get` event, in trace order
+  probes : List DirObs        -- one per `probe` event, in trace order
+  seen : List SeenObs         -- free-running: the distinct Get results observed
+  deriving DecidableEq, Repr, FromJson, ToJson
+
+/-- bundle of Set call `w`: identified by its head, so distinct calls store distinct bytes -/
+def mkData (w len : Nat) : Bytes := w :: List.replicate len 0
+
+def prog (i : Input) : Prog :=
+  { wkey := fun w => match i.writers[w]? with | some s => s.key | none => 0
+    wdata := fun w => match i.writers[w]? with | some s => mkData w s.len | none => mkData w 0
+    rkey := fun r => r }
+
+def Ev.toEvent (e : Ev) : Option Event :=
+  match e.kind with
+  | .create => some (.create e.a e.a)      -- temp name index = writer index (names are unique)
+  | .write => some (.write e.a e.b)
+  | .close => some (.close e.a)
+  | .rename => some (.rename e.a)
+  | .crash => some (.crash e.a)
+  | .get => none
+  | .probe => none
+
+def stepEv (p : Prog) (s : Sys) (e : Ev) : Sys :=
+  match e.toEvent with
+  | some ev => step p s ev
+  | none => s
+
+/-- whose complete bundle for key `k` is `b`, if anybody's -/
+def classify (p : Prog) (k : Nat) (b : Bytes) : ReadObs :=
+  match b with
+  | w :: _ => if p.wkey w = k ∧ p.wdata w = b then ⟨.complete, w⟩ else ⟨.corrupt, 0⟩
+  | [] => ⟨.corrupt, 0⟩
+
+/-- `FileCache.Get` executed without interruption in state `s` (one open + read to EOF) -/
+def getObs (p : Prog) (s : Sys) (k : Nat) : ReadObs :=
+  match s.dir (.key k) with
+  | none => ⟨.miss, 0⟩
+  | some i => classify p k (s.ino i)
+
+def dirObs (p : Prog) (nkeys nw : Nat) (s : Sys) : DirObs :=
+  { present := (List.range nkeys).map (fun k => (s.dir (.key k)).isSome)
+    keys := (List.range nkeys).map (getObs p s)
+    temps := ((List.range nw).filter (fun t => (s.dir (.tmp t)).isSome)).length
+    others := 0 }
+
+/-- the states in which the `get` events of a trace were executed, with the key read -/
+def getStates (p : Prog) : List Ev → Sys → List (Nat × Sys)
+  | [], _ => []
+  | e :: es, s =>
+    if e.kind = .get then (e.a, s) :: getStates p es s
+    else getStates p es (stepEv p s e)
+
+def probeStates (p : Prog) : List Ev → Sys → List Sys
+  | [], _ => []
+  | e :: es, s =>
+    if e.kind = .probe then s :: probeStates p es s
+    else probeStates p es (stepEv p s e)
+
+def run (i : Input) : Obs :=
+  if i.free then { gets := [], probes := [], seen := [] }
+  else
+    let p := prog i
+    { gets := (getStates p i.events init).map (fun ks => getObs p ks.2 ks.1)
+      probes := (probeStates p i.events init).map (dirObs p i.nkeys i.writers.length)
+      seen := [] }
+
+/-! ### the property over observables
+
+Statement sentence -> clause:
+* "reading a URL yields a cache miss or a complete bundle some writer stored for that URL - never
+  truncated, mixed or undecodable", under interleavings: `every_get_...` (Gets placed in the
+  trace), `directory_after_each_step...` (a Get of every URL after every step), and
+  `free_running_gets_...` (unscheduled goroutines / processes);
+* "after the writing process is killed at any point": the same clauses on traces containing
+  `crash` (the probe after the kill: key files absent or complete, `present` consistent with Get);
+* "a read that starts after a write for the URL has returned does not yield an older bundle":
+  `get_after_set_returned_is_not_older` (and the same check inside every probe; in free runs:
+  no miss once a Set for the URL has returned);
+* "leftover temporary files are never mistaken for entries": probes after kills list `temps > 0`
+  leftovers while every Get is still a miss / complete bundle, and `others = 0` (nothing but entries
+  and notation-* files ever appears); the name-level fact is theorem `temp_never_key`.
+Out of scope (not in the statement / not observable here): power loss (no fsync), Windows, the
+error path of WriteFile (temp file removed when write/close fails), the delta CRL field.
+-/
+
+/-- miss, or the complete bundle some Set call stored *for that key* -/
+def okRead (p : Prog) (k : Nat) (o : ReadObs) : Bool :=
+  o.kind == .miss || (o.kind == .complete && p.wkey o.writer == k)
+
+def isDone (s : Sys) (w : Nat) : Bool := s.wst w == .done
+
+/-- freshness of a Get executed in (trace-replayed) state `s`: for every Set call `w` for this key
+whose rename happened before, the result is the complete bundle of a Set call for this key whose
+rename is not before `w`'s. (`stamp` = position of the rename among the renames of the trace.) -/
+def freshOK (p : Prog) (nw : Nat) (s : Sys) (k : Nat) (o : ReadObs) : Bool :=
+  (List.range nw).all (fun w =>
+    !(isDone s w && p.wkey w == k) ||
+      (o.kind == .complete && isDone s o.writer && p.wkey o.writer == k && decide (s.stamp w ≤ s.stamp o.writer)))
+
+def all2 {α β} (f : α → β → Bool) : List α → List β → Bool
+  | [], [] => true
+  | a :: as, b :: bs => f a b && all2 f as bs
+  | _, _ => false
+
+def probeOK (p : Prog) (nkeys nw : Nat) (s : Sys) (d : DirObs) : Bool :=
+  d.keys.length == nkeys && d.present.length == nkeys &&
+  all2 (fun k o => okRead p k o) (List.range nkeys) d.keys &&
+  all2 (fun k o => freshOK p nw s k o) (List.range nkeys) d.keys &&
+  all2 (fun (pr : Bool) (o : ReadObs) => pr == (o.kind != .miss)) d.present d.keys &&
+  d.others == 0
+
+def clauses (i : Input) (o : Obs) : Clauses :=
+  let p := prog i
+  let nw := i.writers.length
+  let gs := if i.free then [] else getStates p i.events init
+  let ps := if i.free then [] else probeStates p i.events init
+  [ ("every_get_is_miss_or_complete_bundle_of_its_url",
+      all2 (fun (ks : Nat × Sys) r => okRead p ks.1 r) gs o.gets),
+    ("get_after_set_returned_is_not_older",
+      all2 (fun (ks : Nat × Sys) r => freshOK p nw ks.2 ks.1 r) gs o.gets),
+    ("directory_after_each_step_and_after_kills_absent_or_complete",
+      all2 (fun s d => probeOK p i.nkeys nw s d) ps o.probes),
+    ("free_running_gets_are_miss_or_complete",
+      o.seen.all (fun x => okRead p x.key ⟨x.kind, x.writer⟩)),
+    ("free_running_get_after_a_set_returned_is_not_a_miss",
+      o.seen.all (fun x => !x.afterSet || x.kind != .miss)) ]
+
+def Holds (i : Input) (o : Obs) : Bool := (clauses i o).holds
+
+/-- Like `judgeWith`. For a free-running experiment the model is nondeterministic (it cannot
+predict *which* allowed result each Get saw), so there "agree" means: every observed result is
+one the model allows (= the clauses); for traces it is equality with the replayed prediction. -/
+def judge (j : Json) : Except String Json := do
+  let i ← (j.getObjVal? "input") >>= fromJson? (α := Input)
+  let o ← (j.getObjVal? "obs") >>= fromJson? (α := Obs)
+  let m := run i
+  let cl := clauses i o
+  let agree := if i.free then cl.holds && o.gets.isEmpty && o.probes.isEmpty else m == o
+  let base : List (String × Json) := [("agree", toJson agree), ("holds", toJson cl.holds)]
+  let extra : List (String × Json) :=
+    (if agree then [] else [("model", toJson m)]) ++
+    (if cl.holds then [] else [("failed", toJson cl.failed)])
+  return Json.mkObj (base ++ extra)
 
 end NotationModel.C14
